@@ -173,6 +173,36 @@ def strict_wiki(text):
     return objs, props, bools
 
 
+def csv_variant(rng, objs, props, bools, as_int):
+    """Text of the same table as another RFC-4180 writer (or a sloppy hand) would produce it.
+    Returns (text, valid) - valid variants must load as the same context."""
+    t, f = ('1', '0') if as_int else ('X', '')
+    rows = [[''] + list(props)] + [[o] + [t if b else f for b in r] for o, r in zip(objs, bools)]
+    style = rng.randrange(7)
+    def field(s, force):
+        if force or any(c in s for c in ',"\r\n'):
+            return '"' + s.replace('"', '""') + '"'
+        return s
+    eol = '\n' if style in (1, 2) else '\r\n'
+    force_all = style in (0, 2)
+    lines = [','.join(field(x, force_all or rng.random() < .3) for x in r) for r in rows]
+    text = eol.join(lines) + eol
+    valid = True
+    if style == 3:
+        text = text[:-len(eol)]                      # no terminator after the last record
+    elif style == 4:
+        k = rng.randrange(len(lines) + 1)
+        text = eol.join(lines[:k] + [''] + lines[k:]) + eol   # a blank line somewhere
+        valid = False
+    elif style == 5:
+        text = text + eol                            # trailing blank line
+        valid = False
+    elif style == 6 and not any(c in ''.join(objs + props) for c in ',"\r\n'):
+        text = text.replace(',', '\r', 1) if rng.random() < .5 else 'a\rb' + text   # bare CR outside quotes
+        valid = False
+    return text, valid
+
+
 def table_variant(rng, text):
     """A hand-style rewriting of a canonical table that denotes the same context."""
     lines = text.split('\n')
@@ -250,6 +280,10 @@ def run(run):
                                 run.fail('table text', text, unhex(mtext), reqs, extra)
                             back = Context.fromstring(text, 'table')
                             strict = strict_table(text, indent)
+                            rs = 'fmt strict table %d %s' % (indent, hexs(text))
+                            reqs.append(rs)
+                            if parse_triple(drv.ask(rs)) != (objs, props, bools):
+                                run.fail('Lean strict table reader on the emitted text', drv.ask(rs), [objs, props, bools], reqs, dict(extra, text=text))
                             var = table_variant(rng, text)
                             r3 = 'fmt load table ' + hexs(var)
                             reqs.append(r3)
@@ -269,6 +303,10 @@ def run(run):
                                 run.fail('cxt text', text, unhex(mtext), reqs, extra)
                             back = Context.fromstring(text, 'cxt')
                             strict = strict_cxt(text)
+                            rs = 'fmt strict cxt ' + hexs(text)
+                            reqs.append(rs)
+                            if parse_triple(drv.ask(rs)) != (objs, props, bools):
+                                run.fail('Lean strict cxt reader on the emitted text', drv.ask(rs), [objs, props, bools], reqs, dict(extra, text=text))
                         elif frmat == 'csv':
                             as_int = rng.random() < .5
                             text = ctx.tostring('csv', bools_as_int=as_int)
@@ -280,6 +318,25 @@ def run(run):
                             if Context.fromstring(text, 'csv', bools_as_int=as_int) != ctx:
                                 run.fail('csv round trip with explicit bools_as_int', None, None, reqs, extra)
                             strict = strict_csv(text, as_int)
+                            rs = 'fmt strict csv %d %s' % (as_int, hexs(text))
+                            reqs.append(rs)
+                            if parse_triple(drv.ask(rs)) != (objs, props, bools):
+                                run.fail('Lean strict csv reader on the emitted text', drv.ask(rs), [objs, props, bools], reqs, dict(extra, text=text))
+                            for _v in range(2):
+                                vtext, valid = csv_variant(rng, objs, props, bools, as_int)
+                                rv = 'fmt load csv ' + hexs(vtext)
+                                reqs.append(rv)
+                                mv = parse_triple(drv.ask(rv))
+                                try:
+                                    cv = Context.fromstring(vtext, 'csv')
+                                    pv = (list(cv.objects), list(cv.properties), list(cv.bools))
+                                except Exception as exc:  # noqa: BLE001 - the class is the observable
+                                    cv, pv = None, type(exc).__name__
+                                if pv != mv:
+                                    run.fail('csv text of another writer: Python and Lean loaders disagree', pv, mv, reqs, dict(extra, text=vtext))
+                                if valid and cv != ctx:
+                                    run.fail('csv text of another RFC 4180 writer loads as a different context', pv, [objs, props, bools], reqs, dict(extra, text=vtext))
+                                run.count('csv variant ' + ('valid' if valid else 'invalid'))
                             # other dialects
                             for dialect, delim in (('excel-tab', '\t'),):
                                 if any('\t' in l for l in labels):
